@@ -335,7 +335,7 @@ func genFuncs(c *core.Ctx, kr *keyring) error {
 	emit := func(d *fDoc, term string, fails []string) {
 		raw, _ := json.Marshal(d)
 		doc := replayDoc{Role: "func", F: raw, Why: fails}
-		c.AddCaseW(term, doc, 1+len(term)/2500)
+		c.AddCaseW(term, doc, 1+len(term)/1000)
 		c.OracleCheck()
 		c.Count("func:" + d.Kind)
 		for _, f := range fails {
@@ -507,11 +507,13 @@ func genFuncs(c *core.Ctx, kr *keyring) error {
 		if tc.name == "honest" {
 			c.Sample(map[string]interface{}{"fn": "VerifyIDToken", "case": tc.name, "accept": acc})
 		}
-		d2 := &fDoc{Kind: "load", Tok: tc.t}
-		term, fails = loadCase(d2)
-		emit(d2, term, fails)
+		if !strings.HasPrefix(tc.t.Mut.Kind, "flip-h") && tc.w == &kr.w0 {
+			d2 := &fDoc{Kind: "load", Tok: tc.t}
+			term, fails = loadCase(d2)
+			emit(d2, term, fails)
+		}
 		if tc.t.Mut.Kind == "" || strings.HasPrefix(tc.t.Mut.Kind, "flip-h") || strings.HasPrefix(tc.t.Mut.Kind, "flip-p") {
-			for _, claimed := range []string{"alice@pool.example", "root@pool.example"} {
+			for _, claimed := range []string{"root@pool.example"} {
 				d3 := &fDoc{Kind: "validate", W: tc.w, Tok: tc.t, Claimed: claimed}
 				term, fails, acc := validateCase(d3)
 				emit(d3, term, fails)
